@@ -321,12 +321,105 @@ theorem regex_pieces_captured {E : Engine} (hE : EngineLaws E) {seg : Segment} {
 
 /-! ### filling the values back in -/
 
-/-- every parameter list of the segment has exactly one entry (`{name: /expr/}`) -/
-def SingleParams (es : List Elem) : Prop := ∀ e ∈ es, ∀ ps, e = Elem.params ps → ps.length = 1
+/-- every parameter list of the segment is non-empty and all its parameters are regex-valued —
+    what `constructMatchStyleRegex` requires of a regex segment (`regexOfElems_regexParams`) -/
+def RegexParams (es : List Elem) : Prop :=
+  ∀ e ∈ es, ∀ ps, e = Elem.params ps → ps ≠ [] ∧ ∀ q ∈ ps, ∃ t, q.val = .re t
+
+theorem paramsRegex_allRe {E : Engine} : ∀ (ps : List BindParam) (pt : Bytes) (bs : List Bytes),
+    regexOfElems.paramsRegex E ps = .ok (pt, bs) → ∀ q ∈ ps, ∃ t, q.val = .re t
+  | [], _, _, _ => fun _ hq => by cases hq
+  | q :: qs, pt, bs, h => by
+    rw [regexOfElems.paramsRegex] at h
+    split at h
+    · cases h
+    · rename_i e he
+      split at h
+      · cases h
+      · simp only [bind, Except.bind] at h
+        split at h
+        · cases h
+        · rename_i res hres
+          obtain ⟨p', bs'⟩ := res
+          intro x hx
+          rcases List.mem_cons.mp hx with rfl | hx
+          · exact ⟨e, he⟩
+          · exact paramsRegex_allRe qs p' bs' hres x hx
+
+theorem regexOfElems_regexParams {E : Engine} : ∀ (es : List Elem) (pt : Bytes) (bs : List Bytes),
+    regexOfElems E es = .ok (pt, bs) → RegexParams es
+  | [], _, _, _ => fun _ he => by cases he
+  | .ident t :: es, pt, bs, h => by
+    rw [regexOfElems] at h
+    simp only [bind, Except.bind] at h
+    split at h
+    · cases h
+    · rename_i res hres
+      obtain ⟨p', bs'⟩ := res
+      intro e he ps hps
+      rcases List.mem_cons.mp he with rfl | he
+      · cases hps
+      · exact regexOfElems_regexParams es p' bs' hres e he ps hps
+  | .bind nm :: es, pt, bs, h => by
+    rw [regexOfElems] at h
+    simp only [bind, Except.bind] at h
+    split at h
+    · cases h
+    · rename_i res hres
+      obtain ⟨p', bs'⟩ := res
+      intro e he ps hps
+      rcases List.mem_cons.mp he with rfl | he
+      · cases hps
+      · exact regexOfElems_regexParams es p' bs' hres e he ps hps
+  | .params [] :: es, pt, bs, h => by
+    rw [regexOfElems] at h; cases h
+  | .params (q :: qs) :: es, pt, bs, h => by
+    rw [regexOfElems] at h
+    case x_1 => intro e; cases e
+    simp only [bind, Except.bind] at h
+    split at h
+    · cases h
+    · rename_i res1 hres1
+      obtain ⟨p1, bs1⟩ := res1
+      simp only at h
+      split at h
+      · cases h
+      · rename_i res hres
+        obtain ⟨p', bs'⟩ := res
+        intro e he ps hps
+        rcases List.mem_cons.mp he with rfl | he
+        · injection hps with hps
+          subst hps
+          exact ⟨by simp, paramsRegex_allRe (q :: qs) p1 bs1 hres1⟩
+        · exact regexOfElems_regexParams es p' bs' hres e he ps hps
+
+/-- the parts under the pieces of a list of regex-valued parameters are the values of their
+    holes, in order -/
+theorem regexHoles_pieces (E : Engine) (vals caps : List (Bytes × Bytes))
+    (hv : ∀ b v, (b, v) ∈ caps → vals.lookup b = some v) (rest : List Piece) :
+    ∀ (qs : List BindParam), (∀ q ∈ qs, ∃ t, q.val = .re t) → ∀ (parts : List Bytes),
+    Forall2 (PieceCaptured E caps) (qs.map (paramPiece E) ++ rest) parts →
+    ∃ p1 p2, parts = p1 ++ p2 ∧ (regexHoles qs).flatMap (Tok.subst vals) = p1.flatten ∧
+      Forall2 (PieceCaptured E caps) rest p2
+  | [], _, parts, h => ⟨[], parts, rfl, rfl, h⟩
+  | q :: qs, hre, parts, h => by
+    simp only [List.map_cons, List.cons_append] at h
+    cases h with
+    | cons h1 h2 =>
+      rename_i b l2
+      simp only [paramPiece, PieceCaptured] at h1
+      obtain ⟨p1, p2, hparts, hflat, hrest⟩ :=
+        regexHoles_pieces E vals caps hv rest qs (fun x hx => hre x (List.mem_cons_of_mem _ hx)) l2 h2
+      obtain ⟨t, ht⟩ := hre q (List.mem_cons_self ..)
+      refine ⟨b :: p1, p2, by rw [hparts]; rfl, ?_, hrest⟩
+      have hs : regexHoles (q :: qs) =
+          (match q.val with | .re _ => [Tok.hole q.ident] | .lit _ => []) ++ regexHoles qs := rfl
+      rw [hs, ht, List.flatMap_append, hflat, List.flatten_cons]
+      simp [Tok.subst, hv q.ident _ h1.2]
 
 theorem instElems_pieces (E : Engine) (vals caps : List (Bytes × Bytes))
     (hv : ∀ b v, (b, v) ∈ caps → vals.lookup b = some v) :
-    ∀ (es : List Elem) (parts : List Bytes), SingleParams es →
+    ∀ (es : List Elem) (parts : List Bytes), RegexParams es →
     Forall2 (PieceCaptured E caps) (segPieces E es) parts →
     es.flatMap (instElem vals) = parts.flatten
   | [], parts, _, h => by
@@ -338,28 +431,33 @@ theorem instElems_pieces (E : Engine) (vals caps : List (Bytes × Bytes))
       simp only [PieceCaptured] at h1
       subst h1
       rw [List.flatMap_cons, List.flatten_cons,
-        instElems_pieces E vals caps hv es _ (fun e he => hs e (List.mem_cons_of_mem _ he)) h2]
-      rfl
+        instElems_pieces E vals caps hv es _ (fun e he => hs e (List.mem_cons_of_mem _ he)) h2,
+        C12.instElem_ident]
   | .bind b :: es, parts, hs, h => by
     simp only [segPieces, List.flatMap_cons, elemPieces, List.cons_append, List.nil_append] at h
     cases h with
     | cons h1 h2 =>
       simp only [PieceCaptured] at h1
       rw [List.flatMap_cons, List.flatten_cons,
-        instElems_pieces E vals caps hv es _ (fun e he => hs e (List.mem_cons_of_mem _ he)) h2]
-      simp [instElem, elemTok, Tok.subst, hv b _ h1.2]
+        instElems_pieces E vals caps hv es _ (fun e he => hs e (List.mem_cons_of_mem _ he)) h2,
+        C12.instElem_bind vals b _ (hv b _ h1.2)]
   | .params ps :: es, parts, hs, h => by
-    have hlen := hs (.params ps) (List.mem_cons_self ..) ps rfl
-    match ps, hlen with
-    | [q], _ =>
-      simp only [segPieces, List.flatMap_cons, elemPieces, List.map_cons, List.map_nil,
-        List.cons_append, List.nil_append] at h
-      cases h with
-      | cons h1 h2 =>
-        simp only [paramPiece, PieceCaptured] at h1
-        rw [List.flatMap_cons, List.flatten_cons,
-          instElems_pieces E vals caps hv es _ (fun e he => hs e (List.mem_cons_of_mem _ he)) h2]
-        simp [instElem, elemTok, Tok.subst, hv q.ident _ h1.2]
+    obtain ⟨hne, hre⟩ := hs (.params ps) (List.mem_cons_self ..) ps rfl
+    match ps, hne, hre with
+    | q :: qs, _, hre =>
+      simp only [segPieces, List.flatMap_cons, elemPieces] at h
+      obtain ⟨p1, p2, hparts, hflat, hrest⟩ :=
+        regexHoles_pieces E vals caps hv (segPieces E es) (q :: qs) hre parts h
+      obtain ⟨t, ht⟩ := hre q (List.mem_cons_self ..)
+      have hinst : instElem vals (.params (q :: qs)) =
+          (regexHoles (q :: qs)).flatMap (Tok.subst vals) := by
+        rw [C12.instElem_params_re vals q qs t ht]
+        have hs' : regexHoles (q :: qs) =
+            (match q.val with | .re _ => [Tok.hole q.ident] | .lit _ => []) ++ regexHoles qs := rfl
+        rw [hs', ht]
+        rfl
+      rw [List.flatMap_cons, hinst, hflat, hparts, List.flatten_append,
+        instElems_pieces E vals caps hv es p2 (fun e he => hs e (List.mem_cons_of_mem _ he)) hrest]
 
 theorem Forall2.exists_left {α β : Type} {R : α → β → Prop} {l₁ : List α} {l₂ : List β}
     (h : Forall2 R l₁ l₂) {b : β} (hb : b ∈ l₂) : ∃ a ∈ l₁, R a b := by
@@ -385,11 +483,11 @@ theorem regex_step_find {E : Engine} {st : Step} {pattern : Bytes} {bs : List By
     rw [hf] at ha
     exact ⟨x, subm, hx, hf, by simpa using ha, by simp [Step.caps, hp, Pat.caps, hx, joinSlash, hf]⟩
 
-/-- `instSeg_step` for every kind of segment, regex included (under `EngineLaws`, for segments
-    whose parameter lists have one entry) -/
+/-- `instSeg_step` for every kind of segment, regex included (under `EngineLaws`); a regex
+    segment may have parameter lists with several entries -/
 theorem instSeg_step_regex {E : Engine} (hE : EngineLaws E) {vals : List (Bytes × Bytes)}
     {seg : Segment} {st : Step} (hP : ParsedSeg seg = true)
-    (hcl : classifyLeaf E seg = .ok st.pat) (hok : StepOK E st) (hsp : SingleParams seg.elems)
+    (hcl : classifyLeaf E seg = .ok st.pat) (hok : StepOK E st)
     (hv : ∀ bv ∈ st.caps E, vals.lookup bv.1 = some bv.2) :
     instSeg vals seg = joinSlash st.taken := by
   cases hp : st.pat with
@@ -398,6 +496,12 @@ theorem instSeg_step_regex {E : Engine} (hE : EngineLaws E) {vals : List (Bytes 
     rw [hp] at hcl
     obtain ⟨parts, hflat, hF⟩ := regex_pieces_captured hE hP hcl hf
     rw [← hcaps] at hF
+    have hsp : RegexParams seg.elems := by
+      rcases classifyLeaf_inv hcl with ⟨pt, bs', _, hr⟩ | ⟨h0, _⟩ | ⟨_, h0, _⟩ | ⟨_, h0, _⟩ |
+        ⟨_, _, h0, _⟩
+      · obtain ⟨p0, bs2, hre, _, _⟩ := classifyRegex_ok hr
+        exact regexOfElems_regexParams seg.elems p0 bs2 hre
+      all_goals cases h0
     have := instElems_pieces E vals (st.caps E) (fun b v h => hv (b, v) h) seg.elems parts hsp hF
     rw [instSeg, this, hflat, hx]; rfl
   | static l => exact instSeg_step hcl hok (fun pt bs e => by rw [hp] at e; cases e) hv
